@@ -253,6 +253,23 @@ def r18b(ctx):
                 ctx.report("R18b", fe, r, f"{q}: return {norm(r.value, 50)} not from isoformat()",
                            f"{q} builds this result without isoformat(): strftime-style formatting does not zero-pad years below 1000 (and drops what the "
                            f"format omits), so the string leaves the ODF lexical form and cannot be decoded")
+    # --- and from nothing else: isoformat() writes date, time, fraction and offset exactly; an encoder that recomputes a field by arithmetic or re-formats it
+    #     (divmod on the offset floors negative offsets, a format spec pads or cuts, replace(tzinfo=None) drops the zone) writes another instant
+    for q in ("Date.encode", "DateTime.encode"):
+        fe = repo.func(q)
+        bad = []
+        for x in walk_no_nested(fe.node):
+            if isinstance(x, ast.FormattedValue) and x.format_spec is not None:
+                bad.append((x, "a format specification re-formats a field"))
+            elif isinstance(x, ast.Call) and call_name(x) in ("divmod", "utcoffset", "total_seconds", "strftime", "replace", "astimezone", "timetuple", "round", "int"):
+                bad.append((x, f"{call_name(x)}() recomputes a field"))
+            elif isinstance(x, ast.BinOp) and isinstance(x.op, (ast.FloorDiv, ast.Mod, ast.Mult, ast.Div, ast.Sub)) and not (isinstance(x.left, ast.Constant) and isinstance(x.left.value, str)):
+                bad.append((x, "arithmetic on a field"))
+        ctx.instance("R18b", f"{fe.file}:{fe.ident}", "the encoded text is isoformat()'s, only sliced and suffixed", ok=not bad, nontrivial=True, line=fe.node.lineno)
+        for x, why in bad[:1]:
+            ctx.report("R18b", fe, x, f"{q}: {norm(x, 50)}",
+                       f"{q} does not leave the text to isoformat(): {why} (`{norm(x, 40)}`); hand-made date arithmetic differs from isoformat() on the values the tests do not "
+                       f"sample (negative offsets with minutes, years below 1000, microseconds), so the encoded string denotes another instant than the value")
     # --- Date pairing
     de, dd = repo.func("Date.encode"), repo.func("Date.decode")
     e_iso = any(isinstance(n, ast.Attribute) and n.attr == "isoformat" for n in ast.walk(de.node))
@@ -536,6 +553,12 @@ from ..selftest import Seed, unparse_seed  # noqa: E402
 _DT = "src/odfdo/datatype.py"
 _CO = "src/odfdo/utils/color.py"
 SEEDS = [
+    Seed("DateTime.encode formats the offset by hand with divmod", "fault", _DT,
+         '        text = value.isoformat()\n        if text.endswith("+00:00"):\n            # convert to canonical representation\n            return text[:-6] + "Z"\n        return text',
+         '        offset = value.utcoffset() if isinstance(value, datetime) else None\n        if offset is None:\n            return value.isoformat()\n        text = value.replace(tzinfo=None).isoformat()\n        hours, minutes = divmod(int(offset.total_seconds()) // 60, 60)\n        if not hours and not minutes:\n            return text + "Z"\n        return f"{text}{hours:+03d}:{minutes:02d}"', "R18b"),
+    Seed("DateTime.encode tests the suffix through a local", "neutral", _DT,
+         '        if text.endswith("+00:00"):\n            # convert to canonical representation\n            return text[:-6] + "Z"\n        return text',
+         '        utc = text.endswith("+00:00")\n        if utc:\n            return text[:-6] + "Z"\n        return text'),
     Seed("Unit.__str__ normalises the Decimal", "fault", _DT, "        return str(self.value) + self.unit", "        return str(self.value.normalize()) + self.unit", "R18e"),
     Seed("Unit.__str__ formats with %g", "fault", _DT, "        return str(self.value) + self.unit", '        return f"{self.value:g}{self.unit}"', "R18e"),
     Seed("Unit.__str__ goes through float", "fault", _DT, "        return str(self.value) + self.unit", "        return str(float(self.value)) + self.unit", "R18e"),
